@@ -578,10 +578,16 @@ impl<const N: usize> NdLayout<N> {
 
     /// Return the strides that a contiguous layout with a given shape would
     /// have.
+    ///
+    /// Strides that overflow are saturated. A shape for which this happens is
+    /// either empty, or is rejected when the layout is combined with storage,
+    /// as [`checked_min_data_len`](LayoutExt::checked_min_data_len) overflows.
     fn contiguous_strides(shape: [usize; N]) -> [usize; N] {
         let mut strides = [0; N];
-        for i in 0..N {
-            strides[i] = shape[i + 1..].iter().product();
+        let mut stride: usize = 1;
+        for i in (0..N).rev() {
+            strides[i] = stride;
+            stride = stride.saturating_mul(shape[i]);
         }
         strides
     }
@@ -727,13 +733,17 @@ impl DynLayout {
     }
 
     /// Create a shape-and-strides array for a contiguous layout.
+    ///
+    /// Strides that overflow are saturated. A shape for which this happens is
+    /// either empty, or is rejected when the layout is combined with storage,
+    /// as [`checked_min_data_len`](LayoutExt::checked_min_data_len) overflows.
     fn contiguous_shape_and_strides(shape: &[usize]) -> SmallVec<[usize; 8]> {
         let mut strides_and_shape: SmallVec<[usize; 8]> = SmallVec::from_slice(shape);
         strides_and_shape.resize(shape.len() * 2, 0);
-        let mut stride = 1;
+        let mut stride: usize = 1;
         for i in (0..shape.len()).rev() {
             strides_and_shape[shape.len() + i] = stride;
-            stride *= shape[i];
+            stride = stride.saturating_mul(shape[i]);
         }
         strides_and_shape
     }
